@@ -63,11 +63,24 @@ def quick_timer_duration(ctx, R="C04.R8"):
         enc, dec = m.get_class("QuickTimerEncoder"), m.get_class("QuickTimerDecoder")
         ctx.require(enc is not None and dec is not None, f"{m.relpath}: QuickTimerEncoder/QuickTimerDecoder vanished")
         fe, fd = enc.methods.get("_encode_duration"), dec.methods.get("_decode_duration")
-        if fe is None or fd is None:
-            # helpers inlined or renamed beyond recognition: nothing to evaluate here
-            raise AnalysisError(f"{m.relpath}: the duration helpers of the quick timer codec are not separate methods any more")
+        if fe is None:
+            raise AnalysisError(f"{m.relpath}: the duration helper of the quick timer encoder is not a separate method any more")
         pe = fe.args.args[1].arg
-        pd = [a.arg for a in fd.args.args[1:]]
+        dur_expr = None
+        if fd is not None:
+            pd = [a.arg for a in fd.args.args[1:]]
+        else:
+            # helper inlined: evaluate the `duration=` argument of the decoded message over the two locals unpacked from the
+            # hour and minute slots (the last two of the record)
+            dn = dec.methods.get("decode")
+            ctx.require(dn is not None, f"{m.relpath}: QuickTimerDecoder.decode vanished")
+            for c_ in ast.walk(dn):
+                if isinstance(c_, ast.Call) and (dotted(c_.func) or "").endswith("QuickTimerMessage"):
+                    dur_expr = next((k.value for k in c_.keywords if k.arg == "duration"), None)
+            unp = next((a_ for a_ in ast.walk(dn) if isinstance(a_, ast.Assign) and isinstance(a_.targets[0], ast.Tuple) and isinstance(a_.value, ast.Call) and (dotted(a_.value.func) or "").split(".")[-1] in ("unpack_from", "unpack")), None)
+            if dur_expr is None or unp is None or len(unp.targets[0].elts) < 2 or not all(isinstance(e_, ast.Name) for e_ in unp.targets[0].elts[-2:]):
+                raise AnalysisError(f"{m.relpath}: the decoded duration cannot be located in QuickTimerDecoder.decode")
+            pd = [e_.id for e_ in unp.targets[0].elts[-2:]]
 
         def encode(sec, fe=fe, enc=enc, m=m, pe=pe):
             try:
@@ -78,8 +91,10 @@ def quick_timer_duration(ctx, R="C04.R8"):
                 raise AnalysisError(f"{m.relpath}: _encode_duration does not return an (hours, minutes) pair of ints")
             return r
 
-        def decode(h, mi, fd=fd, dec=dec, m=m, pd=pd):
+        def decode(h, mi, fd=fd, dec=dec, m=m, pd=pd, dur_expr=dur_expr):
             try:
+                if fd is None:
+                    return Mini(ctx.repo, m, {}, dec).ev(dur_expr, {pd[0]: h, pd[1]: mi})
                 return Mini(ctx.repo, m, {}, dec).function_value(fd, {pd[0]: h, pd[1]: mi})
             except Unsupported as ex:
                 raise AnalysisError(f"{m.relpath}: _decode_duration left the evaluable fragment: {ex}")
